@@ -14,6 +14,7 @@ package main
 // Input line (k=v tokens, all byte strings in hex):
 //
 //	fmt=uri|uripost|raw  k=<limit> pre=0|1 file=<hex> [cfgh=<n>/<hex,hex>]   (cfgh: the provider's `headers` option, strings "[key: value]")
+//	    [lim0=1] (Limit = 0, exactly k taken) [rd=<n>] (short reads) [cons=<n>] (n concurrent consumers: reqs= is the sorted multiset) [win=<n>] (n deliveries in flight)
 //	    items=<it;it;…> lead=<pad,pad> per=<pre:post:i1:i2:i3:i4:blank,blank;…> fnl=0|1 trail=<pad> [tbl=<frame>>canon;…]
 //	    it = h:<key>:<val> | r:<uri>:<tag>[:<body>] | f:<tag>:<frame>
 //	    (items/lead/per/fnl/trail are absent on the malformed stream: differential only)
@@ -24,6 +25,7 @@ package main
 // r = m=<hex>,u=<hex>,h=<hex>,hd=<k>:<v>[+<v>]|…,b=<hex>,t=<hex>
 
 import (
+	"bufio"
 	"bytes"
 	"context"
 	"encoding/hex"
@@ -32,9 +34,14 @@ import (
 	"io"
 	"math/rand"
 	"net/http"
+	"os"
+	"os/exec"
+	"regexp"
 	"sort"
 	"strconv"
 	"strings"
+	"sync"
+	"sync/atomic"
 	"time"
 
 	"verifharness/drv"
@@ -323,7 +330,10 @@ func (f *shortFile) Read(p []byte) (int, error) {
 
 // runProvider drains the real provider. unlimited: the provider runs with Limit = 0 (no limit) and exactly k requests are
 // taken before the run is cancelled (only for files on which no decoder error is expected).
-func runProvider(dec config.DecoderType, file []byte, k int, preload bool, headers []string, unlimited bool, maxRead int) string {
+// window > 1: the consumer keeps up to `window` acquired ammo in flight (acquired, request not yet read, not released)
+// before it reads them in order - what an instance pool does while requests are on the wire. Deliveries that share state
+// (one reader, one buffer, one ammo object handed out twice) show up deterministically this way.
+func runProvider(dec config.DecoderType, file []byte, k int, preload bool, headers []string, unlimited bool, maxRead int, consumers int, window int) string {
 	mem := afero.NewMemMapFs()
 	if err := afero.WriteFile(mem, "/ammo", file, 0o644); err != nil {
 		panic(err)
@@ -355,7 +365,68 @@ func runProvider(dec config.DecoderType, file []byte, k int, preload bool, heade
 	}()
 	var reqs []string
 	buildErr := false
-	for len(reqs) < want {
+	if consumers > 1 {
+		// several instances share the provider (what an instance pool does): every consumer acquires, reads its request
+		// completely and releases, concurrently with the others and with the decoder goroutine. Which consumer gets which
+		// entry is up to the scheduler, so the observation is the MULTISET of delivered requests (sorted).
+		var mu sync.Mutex
+		var wg sync.WaitGroup
+		var taken int64
+		for c := 0; c < consumers; c++ {
+			wg.Add(1)
+			go func() {
+				defer wg.Done()
+				defer func() {
+					if r := recover(); r != nil {
+						mu.Lock()
+						reqs = append(reqs, "PANIC "+drv.Clean(fmt.Sprint(r)))
+						mu.Unlock()
+					}
+				}()
+				for atomic.AddInt64(&taken, 1) <= int64(want) {
+					a, ok := p.Acquire()
+					if !ok {
+						if a != nil {
+							mu.Lock()
+							buildErr = true
+							mu.Unlock()
+						}
+						return
+					}
+					rq, ok2 := a.(requester)
+					if !ok2 {
+						mu.Lock()
+						reqs = append(reqs, "?notarequest")
+						mu.Unlock()
+						continue
+					}
+					req, sample := rq.Request()
+					line := canonReq(req) + ",t=" + hx([]byte(sample.Tags()))
+					p.Release(a)
+					mu.Lock()
+					reqs = append(reqs, line)
+					mu.Unlock()
+				}
+			}()
+		}
+		wg.Wait()
+		sort.Strings(reqs)
+	}
+	var pending []core.Ammo
+	flush := func() {
+		for _, a := range pending {
+			rq, ok2 := a.(requester)
+			if !ok2 {
+				reqs = append(reqs, "?notarequest")
+				continue
+			}
+			req, sample := rq.Request()
+			reqs = append(reqs, canonReq(req)+",t="+hx([]byte(sample.Tags())))
+			p.Release(a)
+		}
+		pending = pending[:0]
+	}
+	for consumers <= 1 && len(reqs)+len(pending) < want {
 		a, ok := p.Acquire()
 		if !ok {
 			if a != nil {
@@ -363,15 +434,12 @@ func runProvider(dec config.DecoderType, file []byte, k int, preload bool, heade
 			}
 			break
 		}
-		rq, ok2 := a.(requester)
-		if !ok2 {
-			reqs = append(reqs, "?notarequest")
-			continue
+		pending = append(pending, a)
+		if len(pending) >= window {
+			flush()
 		}
-		req, sample := rq.Request()
-		reqs = append(reqs, canonReq(req)+",t="+hx([]byte(sample.Tags())))
-		p.Release(a)
 	}
+	flush()
 	cancel()
 	var runErr error
 	select {
@@ -524,15 +592,17 @@ func c07Run(input string) string {
 	cfg := parseCfg(kv["cfgh"])
 	unl := kv["lim0"] == "1"
 	rd, _ := strconv.Atoi(kv["rd"])
+	cons, _ := strconv.Atoi(kv["cons"])
+	win, _ := strconv.Atoi(kv["win"])
 	switch kv["fmt"] {
 	case "uri":
-		return runProvider(config.DecoderURI, unhx(kv["file"]), k, pre, cfg, unl, rd)
+		return runProvider(config.DecoderURI, unhx(kv["file"]), k, pre, cfg, unl, rd, cons, win)
 	case "uripost":
-		return runProvider(config.DecoderURIPost, unhx(kv["file"]), k, pre, cfg, unl, rd)
+		return runProvider(config.DecoderURIPost, unhx(kv["file"]), k, pre, cfg, unl, rd, cons, win)
 	case "raw":
-		return runProvider(config.DecoderRaw, unhx(kv["file"]), k, pre, cfg, unl, rd)
+		return runProvider(config.DecoderRaw, unhx(kv["file"]), k, pre, cfg, unl, rd, cons, win)
 	case "json":
-		return runProvider(config.DecoderJSONLine, renderJSON(kv), k, pre, cfg, unl, rd)
+		return runProvider(config.DecoderJSONLine, renderJSON(kv), k, pre, cfg, unl, rd, cons, win)
 	}
 	return "err=badinput n=0 reqs="
 }
@@ -555,6 +625,12 @@ func c07Class(input, obs string) string {
 	}
 	if kv["rd"] != "" {
 		c += "/shortreads"
+	}
+	if kv["cons"] != "" {
+		c += "/consumers"
+	}
+	if kv["win"] != "" {
+		c += "/inflight"
 	}
 	if hasLongLine(kv["file"]) {
 		c += "/longline"
@@ -610,7 +686,9 @@ func pad(r *rand.Rand, max int, crOK bool) []byte {
 	return o
 }
 
-var uriPool = []string{"/", "/a", "/b", "/a/b/c", "/a?b=c", "/search?q=a%20b&x=1", "/x?", "/p;q=1,2", "/0", "/a//b/../c/./", "/A-Z_a.z~1", "/q?u=http://h/p?z", "/%7Euser/%2F", "/very/long/" + strings.Repeat("segment/", 12) + "end?k=" + strings.Repeat("v", 40), "/a:b@c", "/f(1)*'!'$+"}
+var uriPool = []string{"/", "/a", "/b", "/a/b/c", "/a?b=c", "/search?q=a%20b&x=1", "/x?", "/p;q=1,2", "/0", "/a//b/../c/./", "/A-Z_a.z~1", "/q?u=http://h/p?z", "/%7Euser/%2F", "/very/long/" + strings.Repeat("segment/", 12) + "end?k=" + strings.Repeat("v", 40), "/a:b@c", "/f(1)*'!'$+",
+	// absolute-form targets: the request goes to path+query, Host is the URL's authority (a [Host: …] line does not override it)
+	"http://example.org/abs?x=1", "http://h.x:8080/", "http://10.0.0.1/a/b;c=1?d=e&f"}
 var tagPool = []string{"", "", "t", "tag", "my tag", "a  b", " lead", "тег", "tag x", "t\rx", "[x]", "0", "12 /z", "tag é", "日本", "x:y"}
 var hkeyPool = []string{"X-A", "x-a", "X-B", "Host", "host", "Content-Type", "A", "User-Agent", "My Key", "x_y", "Connection", "Ünï"}
 var hvalPool = []string{"", "v", "b", "example.com", "other.net:8080", "a: b", "x]y", "[z", "application/json", "v w  x", "знач", "]", "a:b:c"}
@@ -815,11 +893,17 @@ func lim0(on bool) string {
 // manyPasses: every sixth call of limitFor asks for four and a half passes instead of two and a half
 var limitCalls int
 
+// (further variants: exact pass boundaries, many passes; a caller that needs the value twice uses lastLimit)
 func limitFor(nreq int) int {
 	limitCalls++
 	k := (5*nreq + 1) / 2
-	if limitCalls%6 == 0 && nreq <= 8 {
+	switch {
+	case limitCalls%6 == 0 && nreq <= 8:
 		k = (9*nreq + 1) / 2
+	case limitCalls%12 == 3: // the limit falls exactly on a pass boundary, or one before / after it
+		k = []int{nreq, 2 * nreq, 3 * nreq, nreq + 1, 2*nreq - 1}[(limitCalls/12)%5]
+	case limitCalls%12 == 9 && nreq <= 3: // many passes over a short file
+		k = 7*nreq + 1
 	}
 	if k < 3 {
 		k = 3
@@ -910,6 +994,17 @@ func c07Gen(r *rand.Rand, tier string) []string {
 	for i := range out {
 		if r2.Intn(3) == 0 && !strings.Contains(out[i], " rd=") {
 			out[i] += fmt.Sprintf(" rd=%d", readSizes[r2.Intn(len(readSizes))])
+		}
+		// one well-formed case in six is drained by 2-4 concurrent consumers (entries known, no frame that is not a request)
+		wf := strings.Contains(out[i], " items=") || strings.HasPrefix(out[i], "fmt=json ")
+		if strings.Contains(out[i], " cons=") {
+			continue
+		}
+		if wf && r2.Intn(6) == 0 && !strings.Contains(out[i], ">!") && len(out[i]) < 1<<20 {
+			out[i] += fmt.Sprintf(" cons=%d", 2+r2.Intn(3))
+		} else if r2.Intn(4) == 0 && len(out[i]) < 1<<20 {
+			// one case in four keeps 2..16 deliveries in flight before reading them (often more than one pass of the file)
+			out[i] += fmt.Sprintf(" win=%d", []int{2, 2, 3, 4, 7, 16}[r2.Intn(6)])
 		}
 	}
 	return out
@@ -1049,6 +1144,44 @@ func c07Streams(r *rand.Rand, tier string) []string {
 		fitems := []item{{kind: 'f', b: []byte("big tag"), c: frame}, {kind: 'f', c: []byte("GET / HTTP/1.0\r\n\r\n")}}
 		out = append(out, caseLine("raw", fitems, layout{fnl: true}, i%2 == 0, nil))
 	}
+	// 10 mid-size bodies / frames: larger than the bufio.Reader buffer (4096: io.ReadFull through a bufio.Reader copies what is
+	// buffered and then reads the rest straight from the file) but far below the 1 MiB chunk; followed by further entries
+	midSizes := []int{4095, 4096, 4097, 5000 + r.Intn(3000), 8192, 12288 + r.Intn(9), 20000 + r.Intn(20000), 65537}
+	nmid := 6
+	if thorough {
+		nmid = 80
+	}
+	for i := 0; i < nmid; i++ {
+		n := midSizes[i%len(midSizes)]
+		body := fill(r, n, alnum+"\n\n [:]\r")
+		items := randItems(r, "uripost", 1+r.Intn(2))
+		items = append(items, item{kind: 'r', a: []byte("/mid?n=" + strconv.Itoa(n)), b: []byte("mid " + strconv.Itoa(i)), c: body})
+		items = append(items, randItems(r, "uripost", 1+r.Intn(2))...)
+		out = append(out, caseLine("uripost", items, randLayout(r, flagsOf(r.Intn(32)), len(items)), i%3 == 1, randCfgSmall(r)))
+		if i%2 == 0 {
+			frame := append([]byte("PUT /mid HTTP/1.1\r\nHost: h\r\nContent-Length: "+strconv.Itoa(n)+"\r\n\r\n"), body...)
+			fitems := append(randItems(r, "raw", 1), item{kind: 'f', b: []byte("mid"), c: frame})
+			fitems = append(fitems, randItems(r, "raw", 1+r.Intn(2))...)
+			out = append(out, caseLine("raw", fitems, randLayout(r, flagsOf(r.Intn(32)), len(fitems)), i%4 == 2, nil))
+		}
+	}
+	// 11 many deliveries under concurrent consumers: 4 consumers drain dozens of passes of a short file (what an instance
+	// pool does for the whole test); state shared between deliveries or between BuildRequest calls races here
+	nconc := 6
+	if thorough {
+		nconc = 60
+	}
+	for _, f := range formats {
+		for i := 0; i < nconc; i++ {
+			items := randItems(r, f, 2+r.Intn(4))
+			line := caseLine(f, items, randLayout(r, flagsOf(r.Intn(32)), len(items)), i%3 == 2, randCfgSmall(r))
+			if strings.Contains(line, ">!") {
+				continue
+			}
+			line = c07KTok.ReplaceAllString(line, fmt.Sprintf(" k=%d ", 40*countReqs(items)+1))
+			out = append(out, line+lim0(i%4 == 1)+" cons=4")
+		}
+	}
 	// 7 long lines: request lines, header lines, size lines and blank/padded lines longer than the buffers the readers
 	// use (bufio.Reader 4096, bufio.Scanner 64 KiB token limit, multiples of both): a line is ONE line whatever its length
 	// (uripost/raw: ReadString has no limit; uri: lines of 65536 bytes and more are the Scanner's `token too long`)
@@ -1066,7 +1199,7 @@ func c07Streams(r *rand.Rand, tier string) []string {
 			lay := randLayout(r, flagsOf(r.Intn(32)), len(items))
 			line := caseLine(f, items, lay, i%2 == 0, randCfgSmall(r))
 			// k = one pass + a few: the observation repeats every request text once, not 2.5 times
-			line = strings.Replace(line, fmt.Sprintf(" k=%d ", limitFor(countReqs(items))), fmt.Sprintf(" k=%d ", countReqs(items)+3), 1)
+			line = c07KTok.ReplaceAllString(line, fmt.Sprintf(" k=%d ", countReqs(items)+3))
 			out = append(out, line)
 		}
 	}
@@ -1084,7 +1217,7 @@ func c07Streams(r *rand.Rand, tier string) []string {
 			e := entity{
 				host:   []string{"example.com", "h.x:8080", "10.0.0.1", "", "EXAMPLE.org"}[r.Intn(5)],
 				method: methodPool[r.Intn(len(methodPool))],
-				uri:    uriPool[r.Intn(len(uriPool))],
+				uri:    uriPool[r.Intn(len(uriPool)-3)], // origin-form only: the entity's host field carries the authority
 				tag:    []string{"", "t", "my tag", " x ", "тег", "a\tb", "q\"uote", "new\nline"}[r.Intn(8)],
 			}
 			switch r.Intn(6) {
@@ -1423,11 +1556,209 @@ func enumStream(thorough bool) []string {
 	return out
 }
 
+// ---------------------------------------------------------------- process isolation
+//
+// Some faults of the code under test cannot be recovered inside the process: the Go runtime ends the WHOLE program on
+// `fatal error: concurrent map read and map write` / `concurrent map iteration and map write` (a header map shared
+// between the decoder goroutine and the consumer), on stack exhaustion, out of memory, a deadlock of all goroutines or
+// os.Exit. A driver that dies writes no cases.tsv and the check could only say "harness failed". Therefore every case
+// runs in a worker child process (this same binary started with `-c07worker`, one case at a time, line protocol on
+// stdin/stdout); a child that dies is an OBSERVATION of the case it was running,
+//
+//	FATAL <first line of the runtime's message>
+//
+// (the Lean driver judges it `fail:crash`), and a fresh child takes the next case.
+
+const c07WorkerFlag = "-c07worker"
+const c07ObsMark = "\x01OBS "
+
+// c07Worker: the child side. Reads one input per line, answers one marked line per input.
+func c07Worker() {
+	in := bufio.NewReaderSize(os.Stdin, 1<<20)
+	out := bufio.NewWriter(os.Stdout)
+	for {
+		line, err := in.ReadString('\n')
+		if len(line) > 0 && line[len(line)-1] == '\n' {
+			obs := c07RunRecover(line[:len(line)-1])
+			_, _ = out.WriteString(c07ObsMark + drv.Clean(obs) + "\n")
+			if out.Flush() != nil {
+				return
+			}
+		}
+		if err != nil {
+			return
+		}
+	}
+}
+
+func c07RunRecover(input string) (obs string) {
+	defer func() {
+		if r := recover(); r != nil {
+			obs = "PANIC " + drv.Clean(fmt.Sprint(r))
+		}
+	}()
+	return c07Run(input)
+}
+
+// headBuffer keeps the first max bytes written to it (the runtime's message comes first, the goroutine dump after it)
+type c07HeadBuffer struct {
+	mu  sync.Mutex
+	buf []byte
+	max int
+}
+
+func (h *c07HeadBuffer) Write(p []byte) (int, error) {
+	h.mu.Lock()
+	if room := h.max - len(h.buf); room > 0 {
+		if len(p) < room {
+			room = len(p)
+		}
+		h.buf = append(h.buf, p[:room]...)
+	}
+	h.mu.Unlock()
+	return len(p), nil
+}
+
+func (h *c07HeadBuffer) String() string {
+	h.mu.Lock()
+	defer h.mu.Unlock()
+	return string(h.buf)
+}
+
+type c07Child struct {
+	cmd    *exec.Cmd
+	stdin  io.WriteCloser
+	stdout *bufio.Reader
+	stderr *c07HeadBuffer
+}
+
+func c07StartChild() (*c07Child, error) {
+	exe, err := os.Executable()
+	if err != nil {
+		return nil, err
+	}
+	cmd := exec.Command(exe, c07WorkerFlag)
+	cmd.Env = append(os.Environ(), "GOTRACEBACK=single")
+	stdin, err := cmd.StdinPipe()
+	if err != nil {
+		return nil, err
+	}
+	stdout, err := cmd.StdoutPipe()
+	if err != nil {
+		return nil, err
+	}
+	c := &c07Child{cmd: cmd, stdin: stdin, stdout: bufio.NewReaderSize(stdout, 1<<20), stderr: &c07HeadBuffer{max: 1 << 16}}
+	cmd.Stderr = c.stderr
+	if err := cmd.Start(); err != nil {
+		return nil, err
+	}
+	return c, nil
+}
+
+func (c *c07Child) kill() {
+	_ = c.stdin.Close()
+	if c.cmd.Process != nil {
+		_ = c.cmd.Process.Kill()
+	}
+	_ = c.cmd.Wait()
+}
+
+var c07KTok = regexp.MustCompile(` k=[0-9]+ `)
+
+var c07Addr = regexp.MustCompile(`0x[0-9a-fA-F]+|\b[0-9]{3,}\b`)
+
+// c07FatalLine: the runtime's own one-line description of why the process ended, without addresses and numbers
+func c07FatalLine(stderr string, waitErr error) string {
+	for _, l := range strings.Split(stderr, "\n") {
+		l = strings.TrimSpace(l)
+		if strings.HasPrefix(l, "fatal error:") || strings.HasPrefix(l, "panic:") || strings.HasPrefix(l, "runtime:") || strings.HasPrefix(l, "SIG") {
+			return drv.Trunc(c07Addr.ReplaceAllString(l, "N"), 160)
+		}
+	}
+	if waitErr != nil {
+		return "worker ended: " + c07Addr.ReplaceAllString(waitErr.Error(), "N")
+	}
+	return "worker ended without an answer"
+}
+
+var c07Idle = make(chan *c07Child, 64)
+
+const c07CaseTimeout = 25 * time.Second
+
+// c07RunIsolated: run one case in a worker child; the child is reused for the next case when it survived.
+func c07RunIsolated(input string) string {
+	var c *c07Child
+	select {
+	case c = <-c07Idle:
+	default:
+		var err error
+		if c, err = c07StartChild(); err != nil {
+			// no child processes available: run in this process (a fatal fault then ends the driver as before)
+			return c07RunRecover(input)
+		}
+	}
+	type answer struct {
+		obs string
+		err error
+	}
+	done := make(chan answer, 1)
+	go func() {
+		if _, err := io.WriteString(c.stdin, drv.Clean(input)+"\n"); err != nil {
+			done <- answer{err: err}
+			return
+		}
+		for {
+			line, err := c.stdout.ReadString('\n')
+			if strings.HasPrefix(line, c07ObsMark) && strings.HasSuffix(line, "\n") {
+				done <- answer{obs: line[len(c07ObsMark) : len(line)-1]}
+				return
+			}
+			if err != nil {
+				done <- answer{err: err}
+				return
+			}
+		}
+	}()
+	select {
+	case a := <-done:
+		if a.err == nil {
+			select {
+			case c07Idle <- c:
+			default:
+				c.kill()
+			}
+			return a.obs
+		}
+		_ = c.stdin.Close()
+		waitErr := c.cmd.Wait()
+		return "FATAL " + c07FatalLine(c.stderr.String(), waitErr)
+	case <-time.After(c07CaseTimeout):
+		c.kill()
+		return "HANG"
+	}
+}
+
+func c07StopChildren() {
+	for {
+		select {
+		case c := <-c07Idle:
+			c.kill()
+		default:
+			return
+		}
+	}
+}
+
 func main() {
+	if len(os.Args) > 1 && os.Args[1] == c07WorkerFlag {
+		c07Worker()
+		return
+	}
+	defer c07StopChildren()
 	drv.Main(&drv.Prop{
 		ID:      "C07",
 		Gen:     c07Gen,
-		Run:     c07Run,
+		Run:     c07RunIsolated,
 		Class:   c07Class,
 		Workers: 8,
 		Timeout: 30 * time.Second,
@@ -1436,6 +1767,8 @@ func main() {
 			"with and without a `headers` option; lines of 4 KiB to 140 KiB (target, tag, header key/value, padding, blank line; at and around 4096, 8192, ..., 65536, 131072) in every line format; " +
 			"files of hundreds to thousands of entries; http/json entity lists in line/pretty/array layouts with leading/trailing white space, unknown fields and very long values; " +
 			"a malformed stream (fixed witnesses, Unicode white space at line edges, byte mutations) and the exhaustive enumeration of all short byte strings / short line sequences; " +
+			"limits on / next to pass boundaries and many passes, absolute-form targets, bodies of 4-64 KiB, a third of the files through short reads, one well-formed case in six drained by 2-4 concurrent consumers " +
+			"(multiset of deliveries), one in four with 2-16 deliveries in flight before they are read; every case runs in a child process (a fault that ends the process is the observation FATAL of that case); " +
 			"the real NewProvider+Run+Acquire is drained; non-trivial = at least one request or a decoder error",
 	})
 }
